@@ -330,6 +330,11 @@ def check_inputs(ctx, rule='CFG-10'):
             else:
                 ctx.undecided(rule, inst, loc(ifi), 'not modelled: %r' % (out,)); decided = False
             continue
+        if I.lost or any(not isinstance(o, Obj) or any(isinstance(v_, Unk) for v_ in o.attrs.values()) or not o.attrs for o in out):
+            # what is handed out was not fully modelled (an unmodelled way of copying, a lost call): no verdict on it
+            ctx.undecided(rule, inst, loc(ifi), 'the objects handed out were not fully modelled: %r' % ([o for o in out if not isinstance(o, Obj) or not o.attrs or any(isinstance(v_, Unk) for v_ in o.attrs.values())][:1] or I.lost[:1],))
+            decided = False
+            continue
         okk = len(out) == len(expect) and all(isinstance(o, Obj) and all(same_value(o.attrs.get(k_), e.attrs.get(k_)) for k_ in e.attrs if k_ != 'meta') and same_meta(o.attrs.get('meta'), meta) for o, e in zip(out, expect))
         ctx.expect(okk, rule, inst, loc(ifi), 'iterates over the results given, in order, with their metadata', 'iteration gives %d objects that are not the results given' % len(out), 'input-iter')
         fresh = all(o is not e for o, e in zip(out, expect))
